@@ -35,10 +35,33 @@ def _np():
     return snp
 
 
+PINNED = [False]      # harness policy rng_pinned: every draw is pinned to one contract-respecting value (recorded as a cut)
+
+
+def _pin(ex, tag, v, lo, hi, guard=None):
+    """obligations about WHICH random calls are made (not about what they return) pin the drawn values: multiplicities
+    min(1, n), indices cycling through the population - no forks on drawn values"""
+    if not PINNED[0]:
+        return
+    k = len(ex.inputs_rng)
+    if tag == "choice":
+        n = hi + 1 if not is_sym(hi) else None
+        c = v == (k % n if n else 0)
+    elif tag == "binomial":
+        return      # pinned in binomial() itself, where p is known (p = 0 and p = 1 force the value)
+    else:
+        c = z3.If(to_z3(hi) >= 1, v == 1, v == 0) if hi is not None else v == 1
+    ex.assume(c if guard is None else z3.Implies(guard, c))
+    cut = "RNG draws pinned (multiplicity 1 per element, cyclic indices): the obligation concerns the sequence of RNG calls only"
+    if cut not in ex.cuts:
+        ex.cuts.append(cut)
+
+
 def _bounded_int(tag, lo, hi):
     ex = core.cur()
     v = ex.fresh_int(tag)
     ex.assume(z3.And(v >= to_z3(lo), v <= to_z3(hi)))
+    _pin(ex, tag, v, lo, hi)
     ex.inputs_rng.append(v)
     return v
 
@@ -94,6 +117,8 @@ def binomial(n, p, size=None):
         ex = core.cur()
         ppz = to_z3(pp, like=z3.RealSort())
         ex.assume(z3.And(z3.Implies(ppz == 0, v == 0), z3.Implies(ppz == 1, v == to_z3(nn))))
+        if PINNED[0]:
+            _pin(ex, "binomial!", v, 0, nn, guard=z3.And(ppz > 0, ppz < 1))
         return core.wrap(v)
 
     if shape is None:
@@ -118,6 +143,7 @@ def poisson(lam=1.0, size=None):
     def one():
         ex = core.cur()
         v = ex.fresh_int("poisson")
+        _pin(ex, "poisson", v, 0, None)
         ex.inputs_rng.append(v)
         ex.assume(v >= 0)
         ex.assume(z3.Implies(to_z3(lam_, like=z3.RealSort()) == 0, v == 0))
